@@ -54,7 +54,7 @@ def _solve_z3(args):
     try:
         # a quantified query that is valid usually closes in well under a second; when the first attempt
         # wanders off (unknown), other instantiation strategies / seeds are tried before giving up
-        attempts = [({}, timeout_ms), ({"smt.mbqi": False}, timeout_ms // 2), ({"smt.random_seed": 7, "smt.qi.eager_threshold": 50}, timeout_ms // 2)]
+        attempts = [({}, timeout_ms), ({"smt.mbqi": False}, timeout_ms // 2), ({"smt.random_seed": 7, "smt.qi.eager_threshold": 50.0}, timeout_ms // 2)]
         r, s = z3.unknown, None
         for cfg, tmo in attempts:
             ctx = z3.Context()
